@@ -104,6 +104,10 @@ func RandomHistories(w *WorldJSON, seed int64, n, depth int, routers []string, f
 			if focus == "refresh" && i%50 == 7 {
 				g.scopeMatrix(emit)
 			}
+			if (focus == "refresh" || focus == "clientauth") && i%20 == 9 {
+				g.withdrawnGrant(emit) // ends the history: the registrations of this store are no longer those of the world
+				continue
+			}
 			if (focus == "clientauth" || focus == "exchange") && i%25 == 1 {
 				// scripted table inside a history: every client (with and without the token-exchange grant, confidential and public,
 				// unknown) asks for an exchange of a live access token with the credentials it is registered for
